@@ -156,6 +156,12 @@ func runC12(c *core.Ctx) {
 	if d.Cap > 0 && r.Bool() {
 		n = d.Cap + r.Range(1, 5) // longer than the capacity
 	}
+	if c.Index%151 == 3 && kind != "BinaryHeap" && kind != "PriorityQueue" && !c.Concurrent {
+		// documents of tens of kilobytes (decoders that switch strategy by
+		// document size: streaming, chunked, "skip what will be dropped anyway")
+		n = r.Range(1500, 4000)
+		c.Count("attempt:long-documents", 1)
+	}
 	valid := d.GenDoc(r, n, dupK, dupV)
 	otherState := d.Fresh()
 	otherState.build(c, r.Range(0, 20))
@@ -369,6 +375,7 @@ func init() {
 			f.atLeast("attempt:element-replaced", 1500)
 			f.atLeast("attempt:loads-over-float-content", 1000)
 			f.atLeast("heap:arrangement-cases", heapPermCases)
+			f.atLeast("attempt:long-documents", 200)
 			f.atLeast("attempt:hostile-over-content", 3000)
 			for _, l := range []string{"null", "[]", "{}"} {
 				f.atLeast("attempt:literal:"+l, 10)
